@@ -120,10 +120,25 @@ def assemble(unit, workdir, canary=False, canary_loops=False):
         contract_path = os.path.join(workdir, stem + ".contract.rs")
         with open(contract_path, "w") as f:
             f.write(txt)
+    # tiling guard: the statement slices of the listed units, in order, plus the explicitly listed other statements must cover EVERY
+    # top-level statement of the function (a statement slipped in between two slices would otherwise be seen by no contract)
+    tiling = []
+    for t in unit.get("tiling", []):
+        all_units = load_units()
+        parts = []
+        for un in t["units"]:
+            ou = all_units.get(un)
+            if ou is None:
+                raise Infra(f"{unit['name']}: tiling names unknown unit {un}")
+            for sl in ou.get("slices", []):
+                if sl["fn"] == t["fn"] and sl["path"] == t["path"]:
+                    parts.append({"from": sl["from"], "to": sl["to"], "unit": un})
+        tiling.append({"path": t["path"], "fn": t["fn"], "parts": parts, "other": t.get("other", [])})
     spec = {
         "repo": REPO,
         "sources": unit.get("sources", []),
         "slices": unit.get("slices", []),
+        "tiling": tiling,
         "rules": unit.get("rules", []),
         "contract": contract_path,
         "broadcast": unit.get("broadcast", []),
